@@ -165,7 +165,6 @@ func VC14Sym() {
 	_ = strings.Join
 }
 
-
 // VC14Equ: statements that reference a common EQU name: what one statement
 // does with the name (multiplying it, dividing it) must not change the bytes
 // of the next one.
